@@ -307,6 +307,10 @@ func checkAnswersOnce(o *kernel.Outcome, site string, step int, desc string, r *
 	if ex == nil {
 		return
 	}
+	if strings.HasPrefix(ex.Panic, "simstore: request does not terminate") {
+		o.Violate("C09", "non-termination", site, step, "%s: %s", desc, ex.Panic)
+		return
+	}
 	if ex.Panic != "" {
 		o.Violate("C09", "panic", site, step, "%s: handler panicked: %s", desc, ex.Panic)
 		return
